@@ -320,7 +320,8 @@ class ComposedNode(ConfigNode):
                     possibly_new_child = child.ayns.on_merge(path + [key], value)
 
                     if merge:
-                        if ComposedNode._is_valueless(possibly_new_child) and not possibly_new_child.ayns.has_priority_over(value) and value.ayns.explicit_delete:
+                        # (a node which meets itself was emptied by !clear: it stays, as an empty container)
+                        if value is not child and ComposedNode._is_valueless(possibly_new_child) and not possibly_new_child.ayns.has_priority_over(value) and value.ayns.explicit_delete:
                             to_remove.append(key)
                         elif possibly_new_child is not child:
                             self.ayns.set_child(key, possibly_new_child)
